@@ -121,7 +121,7 @@ def run(ctx):
             ctx.candidate(sig, what, jobs[i], lambda r, sig=sig, cls=cls: [(sig, w) for c, w in faults_of(r) if c == cls])
     # generated programs with faults: shrink on the fault class, then register
     seen = set()
-    for (idx, prog, src, fs) in found[:30]:
+    for (idx, prog, src, fs) in found[:(8 if ctx.quick else 30)]:
         cls = fs[0][0]
 
         def fails(cands, cls=cls):
